@@ -87,8 +87,9 @@ class Recorder:
         self.exhaustive = None
 
     def record(self, case, info):
-        """info: dict(nontrivial=bool, classes=[str], sample=optional summary)."""
-        self.evaluations += 1
+        """info: dict(nontrivial=bool, classes=[str], sample=optional summary).
+        (evaluations are counted by the runner when the oracle starts, so failing
+        executions count too.)"""
         info = info or {}
         for c in info.get("classes", ()):
             self.classes[c] += 1
